@@ -101,6 +101,14 @@ CRYSTALS = {
         choices=[(np.diag([2, 2, 2]), "P"), (np.diag([3, 3, 3]), "P")],
         nac=False,
     ),
+    "afm_mixed": dict(  # antiferromagnet with species interleaved so that grouping by species is a non-involutive permutation
+        lattice=np.diag([3.02, 3.02, 4.31]),
+        symbols=["Fe", "O", "O", "Fe"],
+        positions=[[0, 0, 0], [0.5, 0.5, 0], [0, 0, 0.5], [0.5, 0.5, 0.5]],
+        magmoms=[2.0, 0.0, 0.0, -2.0],
+        choices=[(np.diag([2, 2, 1]), "P"), (np.diag([2, 2, 2]), "P")],
+        nac=False,
+    ),
     "bct": dict(
         lattice=np.diag([3.25, 3.25, 4.95]),
         symbols=["In", "In"],
